@@ -96,7 +96,7 @@ def cases(tier, seed):
     others = [('TinySSH', 'noversion', 'tinyssh_noversion'), ('PuTTY', '0.80', 'PuTTY_Release_0.80'), (None, None, 'FooSSH_1.0'), (None, None, 'Cisco-1.25'), (None, None, None), ('TinySSH', '20240101', 'tinyssh_20240101')]
     cs = []
     n = 220 if tier == 'quick' else 4000
-    profiles = ['db', 'asym', 'sizes', 'terrapin', 'gss', 'unknown', 'big', 'weak', 'db', 'asym-weak', 'lone-change', 'empty-category']
+    profiles = ['db', 'asym', 'sizes', 'terrapin', 'gss', 'unknown', 'big', 'weak', 'db', 'asym-weak', 'lone-change', 'empty-category', 'none-both']
     for i in range(4 if tier == 'quick' else 40):
         cs.append({'kind': 'multi', 'seed': rng.randrange(1 << 30), 'threads': [1, 2][i % 2], 'render': 'json'})
     # OpenSSH servers whose group exchanges are all measured at exactly 2048 bits (the case in which one of them is excused as outside the operator's control)
@@ -155,6 +155,9 @@ def build(c):
     if prof.startswith('gex2048'):
         k['kex'] = ['curve25519-sha256', 'diffie-hellman-group-exchange-sha256'] + (['diffie-hellman-group-exchange-sha1'] if prof.endswith('both') else []) + [x for x in k['kex'] if 'group-exchange' not in x and x != 'curve25519-sha256'][:2]
         gex = {'sizes': rng.choice([[2048], [2048, 8192]]), 'style': rng.choice(['strict', 'openssh'])}
+    if prof == 'none-both':
+        # the one database name that carries a failure in two categories, advertised in both
+        k = audit.sym_kex(['curve25519-sha256', 'diffie-hellman-group14-sha1'], ['ssh-ed25519'], ['aes128-ctr', 'none'] + rng.sample(['3des-cbc', 'aes256-ctr'], 1), ['hmac-sha2-256', 'none'] + rng.sample(['hmac-sha1', 'hmac-sha2-512'], 1))
     if prof == 'empty-category':
         # one name-list is empty (protocol-valid), the categories after it carry weak algorithms
         k = audit.sym_kex(['curve25519-sha256', 'diffie-hellman-group14-sha1'], ['ssh-rsa', 'ssh-ed25519'], ['aes128-ctr', '3des-cbc', 'aes128-cbc'], ['hmac-sha2-256', 'hmac-sha1', 'hmac-md5'])
